@@ -18,6 +18,12 @@ CHECKS = {
  "C14": dict(tech="runtime monitoring: struct names decomposed against the element path of the AST",
    text="Every struct name must be PascalCase(own) preceded by the PascalCase names of its k nearest ancestors (optional numeric / reserved-name suffix); the first struct is the root's; a PascalCase name occurring at a single position must be unqualified.",
    note="convert_string::to_pascal_case (a dependency of the crate) is trusted as the definition of the PascalCase form.", ref="4/C14"),
+ "C15": dict(tech="runtime monitoring: exhaustive enumeration of tagged list pairs against a reference merge",
+   text="merge_necessity is called on every ordered pair of duplicate-free tagged lists over an alphabet of 5 (quick, 40M pairs) / 6 (thorough, 5.8G pairs), element types u8/String/&str, plus random longer lists; result compared for equality with a 15-line reference (membership, conjunction of necessity, stable order).",
+   note="Exhaustive within the alphabet bound only; larger lists are sampled.", ref="4/C15", exhaustive=True),
+ "C16": dict(tech="runtime monitoring: operation histories stepped in lock-step with an ordered-map model, invariant + rendering compared after every operation",
+   text="All sequences of 4 (quick) / 5 (thorough) operations over 17 public construction operations plus random sequences up to length 40; after every step children()/get_child()/remove_child()/standalone()/text and the rendered fields are compared with the model, and the rendering goes through the C04 well-formedness checker.",
+   note="Attributes are observable only through rendering; fields are compared as sets because order is not claimed for hand-built trees.", ref="4/C16", exhaustive=True),
 }
 
 NOT_YET = {}
